@@ -37,7 +37,18 @@ for sid in sorted(os.listdir(os.path.join(V, "seeded"))):
     per_round[rnd][2] += 1 if m["fired"] else 0
     rows.append("| %s | %d | %s | %s | %s | %s |" % (sid, rnd, what, "yes" if m["confirmed"] else "NO", "yes" if m["detected_by_own_property"] else "**no**", fired))
 summary = "; ".join("round %d: %d seeds, %d caught by the check of their own property, %d by at least one check" % (r, v[0], v[1], v[2]) for r, v in sorted(per_round.items()))
-table = ["Seeded faults: %d kept, %d confirmed independently, %d detected by the check of the property they target, %d detected by at least one check (quick tier, seed 0). %s." % (n, conf, own, anyc, summary), "",
+legend = ("Each row is the verdict of the run recorded in `seeded/<id>/meta.json` (`harness_commit`, `repo_commit`). "
+          "Rows without a `harness_commit` were run before that field existed (rounds 1-3, harness commits 30fab45 ... 27a3fc8, "
+          "/repo at 5cd99a9); later harness versions only add workloads and verdicts, so for those rows the list of firing checks is a lower bound. "
+          "Seeds with the final harness: %d of %d.")
+n_final = 0
+for sid in os.listdir(os.path.join(V, "seeded")):
+    try:
+        if json.load(open(os.path.join(V, "seeded", sid, "meta.json"))).get("harness_commit"):
+            n_final += 1
+    except Exception:
+        pass
+table = [legend % (n_final, n + len(retired)), "", "Seeded faults: %d kept, %d confirmed independently, %d detected by the check of the property they target, %d detected by at least one check (quick tier, seed 0). %s." % (n, conf, own, anyc, summary), "",
          "| id | round | change (first line of the sub-agent's notes) | confirmed | own check fires | checks that report a VIOLATION |", "|---|---|---|---|---|---|"] + rows + retired
 p = os.path.join(V, "DESIGN.md")
 s = open(p).read()
